@@ -32,7 +32,9 @@ theorem java_dispatch_is_sound (c : Cfg) (nm : String) (items : Items) (fb : Boo
     · simp only [hre, ↓reduceIte, Outcome.ok.injEq] at h3
       subst h3
       have hj : Java.decodeFull c (.root nm items) bs = .ok (assemble st []) := by
-        simp only [Java.decodeFull, h1, Outcome.bind, hre, ↓reduceIte, assemble, List.append_nil]
+        have h1' : Java.decItems c.e items bs DState.empty = .ok (st, rest) := by
+          rw [← Java.decItemsS_eq c.e items hw.1]; exact h1
+        simp only [Java.decodeFull, h1', Outcome.bind, hre, ↓reduceIte, assemble, List.append_nil]
         generalize st.payload = q
         cases q <;> rfl
       have hr := (Java.decode_same2 c nm items hw.1 bs (by omega) _).mp hj
